@@ -9,6 +9,14 @@ CLAIMED = {
     text="Theorems (Coq, all widths n>=1, all byte patterns, all integers) on the integer codec model: encode/decode are mutually inverse on exactly n bytes, out-of-range is an error, the value is the positional two's-complement value in the stated order, short slices never decode, endianness resolution table. The model is tied to bisturi/field.py on every run by the regenerated kernel G6_int + bridge lemmas and by running model and implementation on ~10^5 cases (exhaustive for 1-byte widths, lane/boundary-exhaustive above, both code paths, all endianness spellings).",
     note="Trusted: Coq kernel + vm_compute; harness/pygen.py; the case generator/renderer; CPython's struct/int.from_bytes/to_bytes are modelled by one codec (that they agree with it is what Tie B checks, by sampling above n=1).",
     technique="Coq proof of codec round-trip/range theorems + regenerated-kernel bridge lemmas + vm_compute correspondence", design="8/C05"),
+ 'C06': dict(
+    text="Theorems (Coq, all inputs, all offsets): a sized read succeeds iff the size is >= 0 and that many bytes are there, returning exactly them; bytes.find returns the FIRST occurrence wholly inside the search window (least index; complete); delimited reads take everything up to it, delimiter included or excluded, cursor just past it; regex search is leftmost / first alternative / greedy for the modelled class; read-to-end; the excluded-delimiter value is delimiter-free and value+delimiter parses back. Tied to bisturi/field.py Data by the regenerated kernel G8_data (cursor arithmetic, short-read test, window end, found test, delimiter accounting) + bridge lemmas and by EXHAUSTIVE correspondence: every marker of length 1..3 over {a,b} x include x window in {unset,0,1..4}, regex class samples, read-to-end, sizes -2..5 as constant/field/expression/callable, against every input over {a,b} up to a length bound at offsets 0 and 1, through real packet classes (generated code included).",
+    note="Trusted: Coq kernel + vm_compute; harness/pygen.py; python's bytes.find and re.search are modelled (find_from / re_search for the closed regex class literal|byte+ alternatives); class renderer.",
+    technique="Coq proof of first-occurrence/exact-length theorems + regenerated-kernel bridge lemmas + exhaustive small-scope vm_compute correspondence", design="8/C06"),
+ 'C17': dict(
+    text="Theorems (Coq, for every tracked-value type and compute function, every history): the concrete descriptor state machine (tracked value, hidden slot, enabled flag possibly unset) refines the specification (explicit value if assigned and not deleted, else computed); pack serializes exactly what the attribute reads as and leaves the reading unchanged. Tied to bisturi/descriptor.py by the fail-closed template of Auto/AutoLength (kernel G7_auto: any structural change breaks the obligation) and by exhaustive histories (set tracked / set / delete / pack / construct +-keyword / unpack) up to a length bound, for AutoLength and Auto(func), generated and generic code, plus random longer histories; instances have no __dict__.",
+    note="Trusted: Coq kernel + vm_compute; harness/pygen.py template matching; python descriptor protocol and __slots__ are modelled (getattr default, setattr); history driver harness/impl_desc.py. Exceptions raised by the compute function itself (wrong-typed tracked value) are outside this property (see C12, finding D12).",
+    technique="Coq refinement proof over all operation histories + template-matched kernel + exhaustive-history vm_compute correspondence", design="8/C17"),
  'C07': dict(
     text="Theorems (Coq, all compositions of any number of bits, all integers): the compile step gives member i shift = sum of later widths and mask = (2^w-1)<<shift and rejects totals that are not a multiple of 8; unpack gives each member exactly (I / 2^shift) mod 2^w; after pack every slice holds its own value mod 2^w whatever the other values (any size, any sign) and the stale shared integer are; round trip. Tied to bisturi/field.py Bits by the regenerated kernel G5_bits (mask/shift/get/put expressions, boundary test) + bridge lemmas and by all 128 compositions of 8 bits x 256 patterns plus sampled 16..72-bit runs on model and implementation, both code paths.",
     note="Trusted: Coq kernel + vm_compute; harness/pygen.py; python's unbounded two's-complement ints = Coq Z with Z.land/lor/lnot/shiftl/shiftr; class/case generator.",
